@@ -1,16 +1,15 @@
 (* C04 Every PURL value handed out is valid and normalised *)
 Load "coq/props/Hdr".
 From PM Require Import DecQual ParseInv BuildG BuildGen C01P C04 Builder Assemble Exec.
-Lemma src_rt : rt_ok cfg. Proof. prove_rt. Qed.
 Lemma src_cfg_ok : cfg_ok cfg. Proof. sc. Qed.
 (* the invariant, for ANY type parameter whose hook hands back a qualifier collection that the collection's API can produce
    (hook_sane; otherwise the hook edits the parts arbitrarily): parser and builder *)
 Theorem C04_parse_any_shape : forall (T E : Type) (sh : shape T E) s t p, hook_sane cfg sh -> parse cfg sh s = Ok (t, p) -> Inv cfg p.
-Proof. intros T E sh s t p. apply (C04_parse cfg src_rt); sc. Qed.
+Proof. intros T E sh s t p. apply (C04_parse cfg); sc. Qed.
 Print Assumptions C04_parse_any_shape.
 Theorem C04_build_any_shape : forall (T E : Type) (sh : shape T E) t p t' p', hook_sane cfg sh ->
   QInv cfg (p_quals p) -> vals_utf8 (p_quals p) -> build cfg sh t p = Ok (t', p') -> Inv cfg p'.
-Proof. intros T E sh t p t' p'. apply (C04_build cfg src_rt); sc. Qed.
+Proof. intros T E sh t p t' p'. apply (C04_build cfg); sc. Qed.
 Print Assumptions C04_build_any_shape.
 (* the built-in type parameters are sane, so the invariant holds for them unconditionally *)
 Theorem C04_builtin_sane : hook_sane cfg G /\ hook_sane cfg (cow_shape cfg) /\ hook_sane cfg P.
